@@ -47,6 +47,8 @@ class Ctx:
         self.extra = {}
         self.level = "model_checking"
         self.nmd = 0
+        for d in glob.glob(os.path.join(VERIF, "evidence", "replay", pid, "%s_seed%d_*" % (tier, seed))):
+            shutil.rmtree(d, ignore_errors=True)
 
     def log(self, *a):
         print("[%s %6.1fs]" % (self.pid, time.time() - self.t0), *a, flush=True)
